@@ -345,6 +345,17 @@ impl SpeedLimitTrainSim {
                             && self.state.speed != si::Velocity::ZERO)
                 )
             );
+            // a train at rest that is not asked to move can never reach the stopping window:
+            // report it instead of stepping forever
+            ensure!(
+                !(self.state.i > 1
+                    && self.state.speed == si::Velocity::ZERO
+                    && self.state.speed_target == si::Velocity::ZERO
+                    && self.state.offset < self.path_tpc.offset_end() - 1000.0 * uc::FT),
+                "Train came to rest at {:?}, before the stopping window at the end of its path ({:?}), with a zero speed target",
+                self.state.offset,
+                self.path_tpc.offset_end()
+            );
             self.step()?;
         }
         Ok(())
